@@ -1,4 +1,428 @@
+/-
+C07 — tools: the noise matches one record's true influence and the ε split adds up.
+
+The release plans are the executable definitions of `DPL/Model/PlanTools.lean` (the ones `Drivers/Tools.lean` runs on
+IEEE doubles against the real tools, with interposed, forced mechanism outputs).  Here they are instantiated at ℝ.
+Neighbouring datasets are `pre ++ x :: post` and `pre ++ y :: post`: one record replaced, at any position, for
+EVERY size n ≥ 1, records arbitrary — also outside the bounds, because every plan clips first.
+
+For a pair of traces of the same plan (same forced outputs) `dispOk` says `max_i d_i / sens_i ≤ 1` and `privLoss` is
+`Σ_i ε_i · d_i / sens_i` (`DPL/Model/PrivLoss.lean`).
+
+Known findings at HEAD (the model is faithful, the counter-examples are theorems, the proved statements are the
+`_partial` ones, the full statements are kept as `def …_full : Prop`):
+  * nanmean / nanvar / nanstd configure the sensitivity with `array.size`, which counts NaNs;
+  * nansum: a NaN that becomes a value moves the sum by |clip v| > u − l when 0 ∉ [l, u];
+  * histogram* with `weights`: the count moves by the weight, the sensitivity stays 1.
+Not proved, tied by correspondence only: for the quantile family, that the coded interval representation (sorted
+clipped data, interval lengths as base measure, utilities −|i − q k| per interval, uniform draw inside the selected
+interval) has the rank-form density `rankDensity` about which `rank_exp_density_dp` speaks.
+-/
 import DPL.Model.PlanTools
+import DPL.Model.PrivLoss
+import DPL.Proofs.ToolsPlan
+import DPL.Proofs.ToolsSens
+import DPL.Proofs.ToolsHist
+import DPL.Proofs.ToolsQuantile
+
 namespace DPL.C07
-theorem stub : True := trivial
+open DPL DPL.Tools
+
+/-! ## sensitivity lemmas (every n ≥ 1, arbitrary records) -/
+
+/-- `|mean(clip D) − mean(clip D')| ≤ (u − l)/n` -/
+theorem mean_sens {l u : ℝ} (h : l ≤ u) (pre post : List ℝ) (x y : ℝ) :
+    |mean ((pre ++ x :: post).map (clip l u)) - mean ((pre ++ y :: post).map (clip l u))| ≤
+      (u - l) / ((pre ++ x :: post).length : ℝ) := Tools.mean_sens h pre post x y
+
+/-- `|Σ clip D − Σ clip D'| ≤ u − l` -/
+theorem sum_sens {l u : ℝ} (h : l ≤ u) (pre post : List ℝ) (x y : ℝ) :
+    |Tools.sum ((pre ++ x :: post).map (clip l u)) - Tools.sum ((pre ++ y :: post).map (clip l u))| ≤ u - l :=
+  Tools.sum_sens h pre post x y
+
+/-- `|var(clip D) − var(clip D')| ≤ ((u − l)/n)² (n − 1)` -/
+theorem var_sens {l u : ℝ} (h : l ≤ u) (pre post : List ℝ) (x y : ℝ) :
+    |var ((pre ++ x :: post).map (clip l u)) - var ((pre ++ y :: post).map (clip l u))| ≤
+      varSens (pre ++ x :: post).length l u := Tools.var_sens h pre post x y
+
+/-- `count_nonzero`: the number of non-zero entries moves by at most 1 -/
+theorem count_sens (pre post : List ℝ) (x y : ℝ) :
+    |Tools.sum ((pre ++ x :: post).map (fun x => if eqv x 0 then (0 : ℝ) else 1)) -
+      Tools.sum ((pre ++ y :: post).map (fun x => if eqv x 0 then (0 : ℝ) else 1))| ≤ 1 :=
+  Tools.count_sens pre post x y
+
+/-- `sum(dtype=int)`: clipped to the float bounds, truncated, summed: moves by at most `int(u) − int(l)` -/
+theorem intsum_sens {l u : ℝ} (h : l ≤ u) (pre post : List ℝ) (x y : ℝ) :
+    |Tools.sum ((pre ++ x :: post).map (fun x => truncv (clip l u x))) -
+      Tools.sum ((pre ++ y :: post).map (fun x => truncv (clip l u x)))| ≤ truncv u - truncv l :=
+  Tools.intsum_sens h pre post x y
+
+/-- hist_sens: replacing one record changes the count of a bin by the difference of two 0/1 indicators — by at most
+1 —, and of no bin at all when the record stays in its bin (any number of dimensions, any edges) -/
+theorem hist_sens (edges : List (List ℝ)) (cell : List Nat) (pre post : List (WRow ℝ)) (r r' : WRow ℝ) :
+    |cellCount edges false cell (pre ++ r :: post) - cellCount edges false cell (pre ++ r' :: post)| ≤ 1 ∧
+    (binOf edges r.x = binOf edges r'.x →
+      cellCount edges false cell (pre ++ r :: post) = cellCount edges false cell (pre ++ r' :: post)) ∧
+    (binOf edges r.x ≠ some cell → binOf edges r'.x ≠ some cell →
+      cellCount edges false cell (pre ++ r :: post) = cellCount edges false cell (pre ++ r' :: post)) := by
+  refine ⟨cellCount_sens edges cell pre post r r', cellCount_same_bin edges cell pre post r r', ?_⟩
+  intro h1 h2
+  have := cellCount_replace edges cell pre post r r'
+  unfold inCell at this
+  simp only [beq_iff_eq, h1, h2, if_false, sub_self] at this
+  linarith
+
+/-! ## ε splits -/
+
+/-- wrap_axis_split: the `size` output cells get `ε/size` each, which adds up to `ε`; and a record (one index along
+the reduced axes = one row of the records × cells matrix) contributes exactly one entry to every cell, so
+replacing it replaces one entry of every cell's sub-array -/
+theorem wrap_axis_split (ε : ℝ) (size : Nat) (h : 0 < size) :
+    ((List.range size).map (fun _ => ε / (size : ℝ))).sum = ε ∧
+    ∀ {β : Type} (dflt : β) (c : Nat) (pre post : List (List β)) (r : List β),
+      column dflt c (pre ++ r :: post) = column dflt c pre ++ r.getD c dflt :: column dflt c post :=
+  ⟨split_sum ε size h, fun dflt c pre post r => column_replace dflt c pre post r⟩
+
+/-- multi_quantile_split: `m` quantiles get `ε/m` each; over an axis with `n` cells every (quantile, cell) gets
+`ε/m/n`; both add up to `ε` -/
+theorem multi_quantile_split (ε : ℝ) (m n : Nat) (hm : 0 < m) (hn : 0 < n) :
+    ((List.range m).map (fun _ => ε / (m : ℝ))).sum = ε ∧
+    ((List.range (m * n)).map (fun _ => ε / (m : ℝ) / (n : ℝ))).sum = ε :=
+  ⟨split_sum ε m hm, split_sum_nested ε m n hm hn⟩
+
+/-! ## tool_privloss — scalar tools -/
+
+/-- what C07 asks of a pair of traces: same configuration, same release, every displacement within its sensitivity,
+weighted sum of the epsilons at most `bound` -/
+def PrivLossOk {ρ : Type} (t t' : Trace ℝ ρ) (bound : ℝ) : Prop :=
+  t.calls = t'.calls ∧ t.release = t'.release ∧ t.release.isSome ∧
+    dispOk t.calls t.inputs t'.inputs = true ∧ privLoss t.calls t.inputs t'.inputs ≤ bound
+
+/-- a one-invocation plan whose input moves by at most the configured sensitivity -/
+theorem oneCall_privloss {δ ρ : Type} (c : MechCall ℝ) (inp : δ → ℝ) (g : ℝ → ρ) (D D' : δ) (o : ℝ)
+    (hs : |inp D - inp D'| ≤ c.sens) (he : 0 ≤ c.eps) :
+    PrivLossOk ((oneCall c inp g).run D [o]) ((oneCall c inp g).run D' [o]) c.eps := by
+  rw [run_oneCall, run_oneCall]
+  have hr := relDisp_le_one c (inp D) (inp D') hs
+  refine ⟨rfl, rfl, rfl, ?_, ?_⟩
+  · simp [dispOk, hr.2]
+  · simp only [privLoss, add_zero]
+    calc c.eps * relDisp c (inp D) (inp D') ≤ c.eps * 1 := mul_le_mul_of_nonneg_left hr.2 he
+      _ = c.eps := mul_one _
+
+theorem mean_privloss (ε l u : ℝ) (hε : 0 ≤ ε) (h : l ≤ u) (pre post : List ℝ) (x y o : ℝ) :
+    PrivLossOk ((meanPlan (pre ++ x :: post).length ε l u).run (pre ++ x :: post) [o])
+      ((meanPlan (pre ++ x :: post).length ε l u).run (pre ++ y :: post) [o]) ε :=
+  oneCall_privloss _ _ id _ _ o (Tools.mean_sens h pre post x y) hε
+
+theorem var_privloss (ε l u : ℝ) (hε : 0 ≤ ε) (h : l ≤ u) (pre post : List ℝ) (x y o : ℝ) :
+    PrivLossOk ((varPlan (pre ++ x :: post).length ε l u).run (pre ++ x :: post) [o])
+      ((varPlan (pre ++ x :: post).length ε l u).run (pre ++ y :: post) [o]) ε :=
+  oneCall_privloss _ _ id _ _ o (Tools.var_sens h pre post x y) hε
+
+theorem std_privloss (ε l u : ℝ) (hε : 0 ≤ ε) (h : l ≤ u) (pre post : List ℝ) (x y o : ℝ) :
+    PrivLossOk ((stdPlan (pre ++ x :: post).length ε l u).run (pre ++ x :: post) [o])
+      ((stdPlan (pre ++ x :: post).length ε l u).run (pre ++ y :: post) [o]) ε := by
+  unfold stdPlan varPlan
+  rw [single_eq_oneCall, map_oneCall]
+  exact oneCall_privloss _ _ _ _ _ o (Tools.var_sens h pre post x y) hε
+
+theorem sum_privloss (ε l u : ℝ) (hε : 0 ≤ ε) (h : l ≤ u) (pre post : List ℝ) (x y o : ℝ) :
+    PrivLossOk ((sumPlan (pre ++ x :: post).length ε l u).run (pre ++ x :: post) [o])
+      ((sumPlan (pre ++ x :: post).length ε l u).run (pre ++ y :: post) [o]) ε :=
+  oneCall_privloss _ _ id _ _ o (Tools.sum_sens h pre post x y) hε
+
+theorem intsum_privloss (ε l u : ℝ) (hε : 0 ≤ ε) (h : l ≤ u) (pre post : List ℝ) (x y o : ℝ) :
+    PrivLossOk ((intSumPlan (pre ++ x :: post).length ε l u (truncv l) (truncv u)).run (pre ++ x :: post) [o])
+      ((intSumPlan (pre ++ x :: post).length ε l u (truncv l) (truncv u)).run (pre ++ y :: post) [o]) ε :=
+  oneCall_privloss _ _ id _ _ o (Tools.intsum_sens h pre post x y) hε
+
+theorem count_privloss (ε : ℝ) (hε : 0 ≤ ε) (pre post : List ℝ) (x y o : ℝ) :
+    PrivLossOk ((countNonzeroPlan (pre ++ x :: post).length ε).run (pre ++ x :: post) [o])
+      ((countNonzeroPlan (pre ++ x :: post).length ε).run (pre ++ y :: post) [o]) ε := by
+  apply oneCall_privloss _ _ id _ _ o _ hε
+  show _ ≤ (1 : ℝ) - 0
+  rw [sub_zero]
+  exact Tools.count_sens pre post x y
+
+/-! ## tool_privloss — `_wrap_axis` (every number of output cells, per-cell bounds) -/
+
+/-- list form of the generic bound -/
+theorem privLoss_map_le {ι : Type} (xs : List ι) (C : ι → MechCall ℝ) (A B : ι → ℝ)
+    (h : ∀ i ∈ xs, |A i - B i| ≤ (C i).sens ∧ 0 ≤ (C i).eps) :
+    dispOk (xs.map C) (xs.map A) (xs.map B) = true ∧
+      privLoss (xs.map C) (xs.map A) (xs.map B) ≤ (xs.map (fun i => (C i).eps)).sum := by
+  induction xs with
+  | nil => simp [dispOk, privLoss]
+  | cons i is ih =>
+    have hi := h i (by simp)
+    have hr := relDisp_le_one (C i) (A i) (B i) hi.1
+    have hrest := ih (fun j hj => h j (List.mem_cons_of_mem _ hj))
+    constructor
+    · simp only [List.map_cons, dispOk, Bool.and_eq_true, decide_eq_true_eq]
+      exact ⟨hr.2, hrest.1⟩
+    · simp only [List.map_cons, privLoss, List.sum_cons]
+      have : (C i).eps * relDisp (C i) (A i) (B i) ≤ (C i).eps := by
+        calc _ ≤ (C i).eps * 1 := mul_le_mul_of_nonneg_left hr.2 hi.2
+          _ = _ := mul_one _
+      linarith [hrest.2]
+
+/-- `_wrap_axis` over any one-invocation cell plan: if every cell is configured with `ε/size` and a sensitivity
+that bounds the influence of one entry of the cell's sub-array, then replacing one record (one row: one entry in
+every cell) keeps every displacement within its sensitivity and the weighted sum of the epsilons within `ε` -/
+theorem wrapAxis_privloss {β ρ : Type} (dflt : β) (size : Nat) (hsize : 0 < size) (ε : ℝ) (hε : 0 ≤ ε)
+    (bounds : Nat → ℝ × ℝ) (cell : (ε l u : ℝ) → Plan (List β) ℝ ρ) (mk : (l u : ℝ) → Cell (List β) ℝ ρ)
+    (hcell : ∀ l u, cell (ε / (size : ℝ)) l u = (mk l u).plan)
+    (heps : ∀ l u, (mk l u).c.eps = ε / (size : ℝ))
+    (pre post : List (List β)) (r r' : List β)
+    (hsens : ∀ c, ∀ (p q : List β) (x y : β), p.length = pre.length → q.length = post.length →
+      |(mk (bounds c).1 (bounds c).2).inp (p ++ x :: q) - (mk (bounds c).1 (bounds c).2).inp (p ++ y :: q)| ≤
+        (mk (bounds c).1 (bounds c).2).c.sens)
+    (outs : List ℝ) (hlen : outs.length = size) :
+    PrivLossOk ((wrapAxis dflt size ε bounds cell).run (pre ++ r :: post) outs)
+      ((wrapAxis dflt size ε bounds cell).run (pre ++ r' :: post) outs) ε := by
+  rw [wrapAxis_eq_cells dflt size ε bounds cell mk hcell]
+  have hl : outs.length = (axisCells dflt size bounds mk).length := by simp [axisCells, hlen]
+  rw [run_seq_cells _ _ _ hl, run_seq_cells _ _ _ hl]
+  refine ⟨rfl, rfl, rfl, ?_⟩
+  simp only [axisCells, List.map_map, Function.comp_def]
+  have hb := privLoss_map_le (List.range size)
+    (fun c => (mk (bounds c).1 (bounds c).2).c)
+    (fun c => (mk (bounds c).1 (bounds c).2).inp (column dflt c (pre ++ r :: post)))
+    (fun c => (mk (bounds c).1 (bounds c).2).inp (column dflt c (pre ++ r' :: post)))
+    (fun c _ => by
+      refine ⟨?_, ?_⟩
+      · rw [column_replace, column_replace]
+        exact hsens c _ _ _ _ (column_length dflt c pre) (column_length dflt c post)
+      · rw [heps]; positivity)
+  refine ⟨hb.1, le_trans hb.2 (le_of_eq ?_)⟩
+  simp only [heps]
+  exact split_sum ε size hsize
+
+/-- `mean(…, axis=…)`: for every number of cells, every per-cell bounds, every number of records -/
+theorem mean_axis_privloss (size : Nat) (hsize : 0 < size) (ε : ℝ) (hε : 0 ≤ ε) (bounds : Nat → ℝ × ℝ)
+    (hb : ∀ c, (bounds c).1 ≤ (bounds c).2) (pre post : List (List ℝ)) (r r' : List ℝ)
+    (outs : List ℝ) (hlen : outs.length = size) :
+    PrivLossOk ((wrapAxis 0 size ε bounds (meanPlan (pre ++ r :: post).length)).run (pre ++ r :: post) outs)
+      ((wrapAxis 0 size ε bounds (meanPlan (pre ++ r :: post).length)).run (pre ++ r' :: post) outs) ε := by
+  apply wrapAxis_privloss 0 size hsize ε hε bounds _
+    (fun l u => ⟨⟨"LaplaceTruncated", ε / (size : ℝ), 0, (u - l) / ((pre ++ r :: post).length : ℝ), l, u, .osCsprng⟩,
+      fun D => mean (D.map (clip l u)), id⟩)
+    (fun l u => rfl) (fun l u => rfl) pre post r r' _ outs hlen
+  intro c p q x y hp hq
+  have := Tools.mean_sens (hb c) p q x y
+  simpa [hp, hq] using this
+
+theorem var_axis_privloss (size : Nat) (hsize : 0 < size) (ε : ℝ) (hε : 0 ≤ ε) (bounds : Nat → ℝ × ℝ)
+    (hb : ∀ c, (bounds c).1 ≤ (bounds c).2) (pre post : List (List ℝ)) (r r' : List ℝ)
+    (outs : List ℝ) (hlen : outs.length = size) :
+    PrivLossOk ((wrapAxis 0 size ε bounds (varPlan (pre ++ r :: post).length)).run (pre ++ r :: post) outs)
+      ((wrapAxis 0 size ε bounds (varPlan (pre ++ r :: post).length)).run (pre ++ r' :: post) outs) ε := by
+  apply wrapAxis_privloss 0 size hsize ε hε bounds _
+    (fun l u => ⟨⟨"LaplaceBoundedDomain", ε / (size : ℝ), 0, varSens (pre ++ r :: post).length l u, 0,
+      ((u - l) * (u - l)) / 4, .osCsprng⟩, fun D => var (D.map (clip l u)), id⟩)
+    (fun l u => rfl) (fun l u => rfl) pre post r r' _ outs hlen
+  intro c p q x y hp hq
+  have := Tools.var_sens (hb c) p q x y
+  simpa [hp, hq] using this
+
+theorem std_axis_privloss (size : Nat) (hsize : 0 < size) (ε : ℝ) (hε : 0 ≤ ε) (bounds : Nat → ℝ × ℝ)
+    (hb : ∀ c, (bounds c).1 ≤ (bounds c).2) (pre post : List (List ℝ)) (r r' : List ℝ)
+    (outs : List ℝ) (hlen : outs.length = size) :
+    PrivLossOk ((wrapAxis 0 size ε bounds (stdPlan (pre ++ r :: post).length)).run (pre ++ r :: post) outs)
+      ((wrapAxis 0 size ε bounds (stdPlan (pre ++ r :: post).length)).run (pre ++ r' :: post) outs) ε := by
+  apply wrapAxis_privloss 0 size hsize ε hε bounds _
+    (fun l u => ⟨⟨"LaplaceBoundedDomain", ε / (size : ℝ), 0, varSens (pre ++ r :: post).length l u, 0,
+      ((u - l) * (u - l)) / 4, .osCsprng⟩, fun D => var (D.map (clip l u)), fun o => Transc.sqrt o⟩)
+    (fun l u => by
+      unfold stdPlan varPlan
+      rw [single_eq_oneCall, map_oneCall]; rfl)
+    (fun l u => rfl) pre post r r' _ outs hlen
+  intro c p q x y hp hq
+  have := Tools.var_sens (hb c) p q x y
+  simpa [hp, hq] using this
+
+theorem sum_axis_privloss (size : Nat) (hsize : 0 < size) (ε : ℝ) (hε : 0 ≤ ε) (bounds : Nat → ℝ × ℝ)
+    (hb : ∀ c, (bounds c).1 ≤ (bounds c).2) (pre post : List (List ℝ)) (r r' : List ℝ)
+    (outs : List ℝ) (hlen : outs.length = size) :
+    PrivLossOk ((wrapAxis 0 size ε bounds (sumPlan (pre ++ r :: post).length)).run (pre ++ r :: post) outs)
+      ((wrapAxis 0 size ε bounds (sumPlan (pre ++ r :: post).length)).run (pre ++ r' :: post) outs) ε := by
+  apply wrapAxis_privloss 0 size hsize ε hε bounds _
+    (fun l u => ⟨⟨"LaplaceTruncated", ε / (size : ℝ), 0, u - l, l * ((pre ++ r :: post).length : ℝ),
+      u * ((pre ++ r :: post).length : ℝ), .osCsprng⟩, fun D => Tools.sum (D.map (clip l u)), id⟩)
+    (fun l u => rfl) (fun l u => rfl) pre post r r' _ outs hlen
+  intro c p q x y _ _
+  exact Tools.sum_sens (hb c) p q x y
+
+theorem count_axis_privloss (size : Nat) (hsize : 0 < size) (ε : ℝ) (hε : 0 ≤ ε) (bounds : Nat → ℝ × ℝ)
+    (pre post : List (List ℝ)) (r r' : List ℝ) (outs : List ℝ) (hlen : outs.length = size) :
+    PrivLossOk
+      ((wrapAxis 0 size ε bounds (fun e _ _ => countNonzeroPlan (pre ++ r :: post).length e)).run (pre ++ r :: post) outs)
+      ((wrapAxis 0 size ε bounds (fun e _ _ => countNonzeroPlan (pre ++ r :: post).length e)).run (pre ++ r' :: post) outs)
+      ε := by
+  apply wrapAxis_privloss 0 size hsize ε hε bounds _
+    (fun _ _ => ⟨⟨"GeometricTruncated", ε / (size : ℝ), 0, 1 - 0, 0 * ((pre ++ r :: post).length : ℝ),
+      1 * ((pre ++ r :: post).length : ℝ), .osCsprng⟩,
+      fun D => Tools.sum (D.map (fun x => if eqv x 0 then (0 : ℝ) else 1)), id⟩)
+    (fun l u => rfl) (fun l u => rfl) pre post r r' _ outs hlen
+  intro c p q x y _ _
+  show _ ≤ (1 : ℝ) - 0
+  rw [sub_zero]
+  exact Tools.count_sens p q x y
+
+/-! ## tool_privloss — histograms (factor 2 exactly when the record moves between two bins) -/
+
+/-- `histogram` / `histogram2d` / `histogramdd` without weights: every bin count is within its sensitivity 1;
+the weighted sum of the epsilons is at most `2 ε`, at most `ε` when the record enters or leaves the range, and
+`0` when it stays in its bin -/
+theorem hist_privloss (edges : List (List ℝ)) (ε maxsize : ℝ) (hε : 0 ≤ ε) (pre post : List (WRow ℝ))
+    (r r' : WRow ℝ) (outs : List ℝ)
+    (h : outs.length = (cellsOf (edges.map (fun e => e.length - 1))).length) :
+    let p := histCalls edges false ε maxsize
+    let t := p.run (pre ++ r :: post) outs
+    let t' := p.run (pre ++ r' :: post) outs
+    t.calls = t'.calls ∧ dispOk t.calls t.inputs t'.inputs = true ∧
+      privLoss t.calls t.inputs t'.inputs ≤ ε * 2 ∧
+      ((binOf edges r.x = none ∨ binOf edges r'.x = none) → privLoss t.calls t.inputs t'.inputs ≤ ε) ∧
+      (binOf edges r.x = binOf edges r'.x → privLoss t.calls t.inputs t'.inputs = 0) :=
+  Tools.hist_privloss edges ε maxsize hε pre post r r' outs h
+
+/-- the density post-processing sees only the noisy counts: same forced outputs, same release (C06 instance) -/
+theorem hist_release_eq (edges : List ℝ) (weighted density : Bool) (ε maxsize : ℝ) (D D' : List (WRow ℝ))
+    (outs : List ℝ) :
+    ((histogramPlan edges weighted density ε maxsize).run D outs).release =
+      ((histogramPlan edges weighted density ε maxsize).run D' outs).release := by
+  apply (Plan.noninterference_probeFree _ _ D D' outs).2
+  unfold histogramPlan histCalls calls
+  apply Plan.probeFree_map
+  apply Plan.probeFree_seq
+  intro p hp
+  obtain ⟨ci, _, rfl⟩ := List.mem_map.mp hp
+  intro o; trivial
+
+/-! ## the quantile family -/
+
+/-- the utilities the code hands to `Exponential` are the rank utilities: entry `i` is `−|i − q k|` -/
+theorem quantile_utility (D : List ℝ) (l u q : ℝ) (i : Nat) (hi : i < D.length + 1) :
+    (quantileSetup D l u q).utility[i]? = some (-|(i : ℝ) - q * (D.length : ℝ)|) := by
+  unfold quantileSetup
+  simp only [List.getElem?_map, List.getElem?_range hi, Option.map_some]
+  congr 2
+  unfold absv
+  split
+  · rename_i h; rw [abs_of_neg h]
+  · rename_i h; rw [abs_of_nonneg (not_lt.mp h)]
+
+/-- rank_exp_density_dp: for the q-quantile of the clipped data, released with density
+`exp(ε/2 · util_D(y)) / Z_D`, `util_D(y) = −|rank_D(y) − q k|`, one replacement (records arbitrary, clipped first)
+changes the density by a factor of at most `e^ε` at EVERY output `y` -/
+theorem rank_exp_density_dp (ε q l u : ℝ) (hε : 0 ≤ ε) (hlu : l < u) (pre post : List ℝ) (x x' : ℝ) (y : ℝ) :
+    rankDensity ε q l u ((pre ++ x :: post).map (clip l u)) y ≤
+      Real.exp ε * rankDensity ε q l u ((pre ++ x' :: post).map (clip l u)) y := by
+  simp only [List.map_append, List.map_cons]
+  exact Tools.rank_exp_density_dp ε q l u hε hlu _ _ _ _ y
+
+/-! ## the nan-variants and weighted histograms: counter-examples, full statements, proved partial statements -/
+
+/-- full statement for `nanmean` (FALSE for the code as it is) -/
+def nanmean_privloss_full : Prop :=
+  ∀ (ε l u : ℝ), 0 ≤ ε → l ≤ u → ∀ (pre post : List (Option ℝ)) (x y : Option ℝ) (o : ℝ),
+    PrivLossOk ((nanmeanPlan (pre ++ x :: post).length ε l u).run (pre ++ x :: post) [o])
+      ((nanmeanPlan (pre ++ x :: post).length ε l u).run (pre ++ y :: post) [o]) ε
+
+/-- `nanmean([0, nan, nan, nan], bounds=(0,1))` vs `[1, nan, nan, nan]`: the input moves by 1, the configured
+sensitivity is (u − l)/size = 1/4 -/
+theorem nanmean_sens_cex : ¬ nanmean_privloss_full := by
+  intro h
+  have := (h 1 0 1 (by norm_num) (by norm_num) [] [none, none, none] (some 0) (some 1) 0).2.2.2.1
+  revert this
+  simp only [nanmeanPlan, single, Plan.run, dispOk, relDisp, absDiff_real, List.nil_append, List.length_cons,
+    List.length_nil, vals_cons_some, vals_cons_none, vals_nil]
+  norm_num [mean, Tools.sum, clip]
+
+/-- proved part: without NaNs `nanmean` is `mean` -/
+theorem nanmean_privloss_partial (ε l u : ℝ) (hε : 0 ≤ ε) (h : l ≤ u) (pre post : List ℝ) (x y o : ℝ) :
+    PrivLossOk
+      ((nanmeanPlan (pre.map some ++ some x :: post.map some).length ε l u).run (pre.map some ++ some x :: post.map some) [o])
+      ((nanmeanPlan (pre.map some ++ some x :: post.map some).length ε l u).run (pre.map some ++ some y :: post.map some) [o])
+      ε := by
+  apply oneCall_privloss _ _ id _ _ o _ hε
+  have e1 : vals (pre.map some ++ some x :: post.map some) = pre ++ x :: post := by
+    rw [← vals_map_some (pre ++ x :: post)]; simp
+  have e2 : vals (pre.map some ++ some y :: post.map some) = pre ++ y :: post := by
+    rw [← vals_map_some (pre ++ y :: post)]; simp
+  simp only [e1, e2]
+  have := Tools.mean_sens h pre post x y
+  simpa using this
+
+def nanvar_privloss_full : Prop :=
+  ∀ (ε l u : ℝ), 0 ≤ ε → l ≤ u → ∀ (pre post : List (Option ℝ)) (x y : Option ℝ) (o : ℝ),
+    PrivLossOk ((nanvarPlan (pre ++ x :: post).length ε l u).run (pre ++ x :: post) [o])
+      ((nanvarPlan (pre ++ x :: post).length ε l u).run (pre ++ y :: post) [o]) ε
+
+/-- `nanvar([0, 0, nan, nan], bounds=(0,1))` vs `[1, 0, nan, nan]`: 0 → 1/4, configured sensitivity 3/16
+(`nanstd` hands the same input to the same mechanism) -/
+theorem nanvar_sens_cex : ¬ nanvar_privloss_full := by
+  intro h
+  have := (h 1 0 1 (by norm_num) (by norm_num) [] [some 0, none, none] (some 0) (some 1) 0).2.2.2.1
+  revert this
+  simp only [nanvarPlan, single, Plan.run, dispOk, relDisp, absDiff_real, List.nil_append, List.length_cons,
+    List.length_nil, vals_cons_some, vals_cons_none, vals_nil]
+  norm_num [var, mean, Tools.sum, clip, varSens]
+
+theorem nanvar_privloss_partial (ε l u : ℝ) (hε : 0 ≤ ε) (h : l ≤ u) (pre post : List ℝ) (x y o : ℝ) :
+    PrivLossOk
+      ((nanvarPlan (pre.map some ++ some x :: post.map some).length ε l u).run (pre.map some ++ some x :: post.map some) [o])
+      ((nanvarPlan (pre.map some ++ some x :: post.map some).length ε l u).run (pre.map some ++ some y :: post.map some) [o])
+      ε := by
+  apply oneCall_privloss _ _ id _ _ o _ hε
+  have e1 : vals (pre.map some ++ some x :: post.map some) = pre ++ x :: post := by
+    rw [← vals_map_some (pre ++ x :: post)]; simp
+  have e2 : vals (pre.map some ++ some y :: post.map some) = pre ++ y :: post := by
+    rw [← vals_map_some (pre ++ y :: post)]; simp
+  simp only [e1, e2]
+  have := Tools.var_sens h pre post x y
+  simpa using this
+
+def nansum_privloss_full : Prop :=
+  ∀ (ε l u : ℝ), 0 ≤ ε → l ≤ u → ∀ (pre post : List (Option ℝ)) (x y : Option ℝ) (o : ℝ),
+    PrivLossOk ((nansumPlan (pre ++ x :: post).length ε l u).run (pre ++ x :: post) [o])
+      ((nansumPlan (pre ++ x :: post).length ε l u).run (pre ++ y :: post) [o]) ε
+
+/-- `nansum([5.5, nan], bounds=(5,6))` vs `[5.5, 5.5]`: the sum moves by 5.5, the configured sensitivity is 1 -/
+theorem nansum_sens_cex : ¬ nansum_privloss_full := by
+  intro h
+  have := (h 1 5 6 (by norm_num) (by norm_num) [some (11 / 2)] [] none (some (11 / 2)) 0).2.2.2.1
+  revert this
+  simp only [nansumPlan, single, Plan.run, dispOk, relDisp, absDiff_real, List.length_cons,
+    List.length_nil, List.cons_append, List.nil_append, vals_cons_some, vals_cons_none, vals_nil]
+  norm_num [Tools.sum, clip]
+
+/-- proved part: when 0 lies within the bounds (a NaN then counts as a value inside the bounds) `nansum` is fine
+for ALL data, NaNs included -/
+theorem nansum_privloss_partial (ε l u : ℝ) (hε : 0 ≤ ε) (h : l ≤ u) (h0 : l ≤ 0 ∧ 0 ≤ u)
+    (pre post : List (Option ℝ)) (x y : Option ℝ) (o : ℝ) :
+    PrivLossOk ((nansumPlan (pre ++ x :: post).length ε l u).run (pre ++ x :: post) [o])
+      ((nansumPlan (pre ++ x :: post).length ε l u).run (pre ++ y :: post) [o]) ε :=
+  oneCall_privloss _ _ id _ _ o (Tools.nansum_sens_partial h h0 pre post x y) hε
+
+/-- full statement for histograms including weights (FALSE for the code as it is; `hist_privloss` is the part that
+is proved: `weights=None`) -/
+def hist_sens_full : Prop :=
+  ∀ (weighted : Bool) (edges : List (List ℝ)) (cell : List Nat) (pre post : List (WRow ℝ)) (r r' : WRow ℝ),
+    |cellCount edges weighted cell (pre ++ r :: post) - cellCount edges weighted cell (pre ++ r' :: post)| ≤ 1
+
+/-- `histogram([0.5], bins=1, range=(0,1), weights=[3])` vs the record moved out of the range: 3 → 0, sensitivity 1 -/
+theorem hist_weights_cex : ¬ hist_sens_full := fun h => Tools.hist_weights_cex (h true)
+
+/-! ## non-vacuity -/
+
+example : PrivLossOk ((meanPlan 2 1 0 1).run [0, 1] [(1 : ℝ) / 2]) ((meanPlan 2 1 0 1).run [1, 1] [(1 : ℝ) / 2]) 1 := by
+  have := mean_privloss 1 0 1 (by norm_num) (by norm_num) [] [1] 0 1 (1 / 2)
+  simpa using this
+
+/-- the mean bound is attained: corner-to-corner replacement moves the mean by exactly (u − l)/n -/
+example : |mean (([] ++ (0 : ℝ) :: [1]).map (clip 0 1)) - mean (([] ++ (1 : ℝ) :: [1]).map (clip 0 1))| = (1 - 0) / 2 := by
+  norm_num [mean, Tools.sum, clip]
+
 end DPL.C07
